@@ -26,9 +26,9 @@ CheckParse(e) ==
     /\ Chk(e, "ParseNeverPanics", ~Panicked(e))
     /\ IF Panicked(e) THEN TRUE
        ELSE IF en
-       THEN \* a part with an empty module name is no <path_to_module>: judged separately
+       THEN \* a part with an empty module name ("=info") is no <path_to_module>; whether it is "malformed" is
+            \* not settled by the documentation (the code accepts it): counted, not judged (see DESIGN.md, C17)
             /\ Cnt(7, TRUE)
-            /\ Chk(e, "EmptyModuleNameRejected", e.ret = "err")
        ELSE /\ Cnt(2, wf) /\ Cnt(3, ~wf)
             /\ Chk(e, "ErrIffMalformed", (e.ret = "err") <=> ~wf)
             /\ Chk(e, "ParseReturnsOkOrParseError", e.ret \in {"ok", "err"})
